@@ -229,7 +229,7 @@ class ExplicitStateGraph:
                     nextnode = self._initialize_node(ns, parent_node=node)
                 else:
                     nextnode = self.states_to_nodes[ns]
-                    nextnode.parent_states.add(node.state)
+                    nextnode.parent_states[node.state] = None
                 node.action_nextstates[a].append(nextnode.state)
 
     def revise_value_from(self, states):
@@ -269,7 +269,7 @@ class ExplicitStateGraph:
 
     def dynamic_programming(self, nodes):
         """Perform dynamic programming updates over a set of nodes"""
-        dp_action_order = list(set.union(*[set(n.action_order) for n in nodes]))
+        dp_action_order = list(dict.fromkeys(a for n in nodes for a in n.action_order))
         tf, rf, am = self._state_nodes_to_matrices(nodes, dp_action_order)
         pi, v, q = self._policy_iteration(tf, rf, am)
 
@@ -371,7 +371,8 @@ class ExplicitStateGraph:
             expanded=False,
             expandedorder=-1,
             visitorder=len(self.states_to_nodes),
-            parent_states=set([]) if parent_node is None else {parent_node.state},
+            # insertion-ordered (dict keys), so that traversal order does not depend on hashing
+            parent_states=dict() if parent_node is None else {parent_node.state: None},
             action_nextstates={a : [] for a in self.mdp.actions(s)}
         )
         return self.states_to_nodes[s]
